@@ -252,6 +252,17 @@ def serialize(disc: Disc, rng, shapes=("contiguous", "reversed", "random", "sort
     return bytes(out), info
 
 
+def shown_names(names: List[str]) -> List[str]:
+    """sibling names as shown / written: the k-th (k >= 2) of a group of equal clean names gets ' (k)'
+    (clean generated names never look like a numbered name themselves, so no further collision arises)."""
+    seen: Dict[str, int] = {}
+    out = []
+    for n in names:
+        seen[n] = seen.get(n, 0) + 1
+        out.append(n if seen[n] == 1 else f"{n} ({seen[n]})")
+    return out
+
+
 def expected_export(disc: Disc) -> Dict[str, dict]:
     """what the property says export writes: path -> {channels, rate, pcm}. Names in generated discs
     are clean and unique, so the path is <partition letter>/<volume>/<stem>.wav."""
@@ -260,7 +271,9 @@ def expected_export(disc: Disc) -> Dict[str, dict]:
     exp = {}
     for pi, p in enumerate(disc.partitions):
         letter = chr(ord("A") + pi)
-        for v in p.volumes:
+        folders = shown_names([v.name.upper().rstrip() for v in p.volumes])
+        for vi, v in enumerate(p.volumes):
+            vfolder = folders[vi]
             samples = [f for f in v.files if f.kind == "sample"]
             byname = {f.name.upper().rstrip(): f for f in samples}
             used = set()
@@ -282,10 +295,10 @@ def expected_export(disc: Disc) -> Dict[str, dict]:
                     a, b = pcm(l), pcm(r)
                     n = min(len(a), len(b)) // 2
                     inter = b"".join(a[2 * i : 2 * i + 2] + b[2 * i : 2 * i + 2] for i in range(n))
-                    exp[f"{letter}/{v.name.upper().rstrip()}/{m.group(1)}.wav"] = dict(channels=2, rate=l.rate or 44100, pcm=inter, frames_l=len(a) // 2, frames_r=len(b) // 2)
+                    exp[f"{letter}/{vfolder}/{m.group(1)}.wav"] = dict(channels=2, rate=l.rate or 44100, pcm=inter, frames_l=len(a) // 2, frames_r=len(b) // 2)
                 else:
                     used.add(nm)
-                    exp[f"{letter}/{v.name.upper().rstrip()}/{nm}.wav"] = dict(channels=1, rate=f.rate or 44100, pcm=pcm(f))
+                    exp[f"{letter}/{vfolder}/{nm}.wav"] = dict(channels=1, rate=f.rate or 44100, pcm=pcm(f))
     return exp
 
 
@@ -332,7 +345,9 @@ def random_disc(rng, small=True) -> Disc:
                     pair.reverse()
                 files += pair
                 rng.shuffle(files)
-            vols.append(Volume(f"VOL {pi}{vi}", files, s3000=rng.random() < 0.5, dir_mode=rng.choice(["chain", "chain", "run"]), dir_sectors=rng.choice([1, 1, 2])))
+            # sibling volumes may carry the same name (S78): they are told apart as NAME, NAME (2)
+            vname = vols[0].name if vols and rng.random() < 0.3 else f"VOL {pi}{vi}"
+            vols.append(Volume(vname, files, s3000=rng.random() < 0.5, dir_mode=rng.choice(["chain", "chain", "run"]), dir_sectors=rng.choice([1, 1, 2])))
         need = HEADER_SECTORS + 4 + sum(v.dir_sectors + 2 + sum(nsectors(len(f.content())) for f in v.files) for v in vols)
         # the volume table may have holes (deleted volumes) and need not start at slot 0
         slots = sorted(rng.sample(range(rng.choice([len(vols) + 2, 12, VOL_ENTRIES])), len(vols))) if vols and rng.random() < 0.5 else None
